@@ -7,6 +7,45 @@ Theorem c06_pathport_layout :
 Proof. reflexivity. Qed.
 Print Assumptions c06_pathport_layout.
 
+(* every constant the pathport model takes from the repository (sizeof / offsetof of the packed wire structs, opcodes,
+   vectors, masks), regenerated into GenPathport.v on each run, pinned to the value the proofs and statements were written
+   for: a change of the wire layout or of a constant in /repo breaks this obligation deterministically *)
+Theorem c06_pathport_consts :
+  PP_PACKET_SIZE = 1500 /\
+  PP_HEADER_SIZE = 20 /\
+  PP_PDU_HEADER_SIZE = 4 /\
+  PP_PDU_DATA_SIZE = 8 /\
+  PP_ARP_REPLY_SIZE = 12 /\
+  PP_OFF_protocol = 0 /\
+  PP_OFF_version_major = 2 /\
+  PP_OFF_version_minor = 3 /\
+  PP_OFF_destination = 16 /\
+  PP_OFF_pdu = 20 /\
+  PP_OFF_pdu_type = 0 /\
+  PP_OFF_pdu_d = 4 /\
+  PP_OFF_d_type = 0 /\
+  PP_OFF_d_channel_count = 2 /\
+  PP_OFF_d_start_code = 5 /\
+  PP_OFF_d_offset = 6 /\
+  PP_OFF_d_data = 8 /\
+  PP_MAX_UNIVERSES = 127 /\
+  PP_PROTOCOL = 60673 /\
+  PP_MAJOR_VERSION = 2 /\
+  PP_MINOR_VERSION = 0 /\
+  PP_ID_BROADCAST = 4294967295 /\
+  PP_STATUS_GROUP = 4026527231 /\
+  PP_CONFIG_GROUP = 4026526978 /\
+  PP_DATA_GROUP = 4026526977 /\
+  PP_DATA = 256 /\
+  PP_ARP_REQUEST = 769 /\
+  PP_ARP_REPLY = 770 /\
+  PP_XDMX_DATA_FLAT = 257 /\
+  PP_NODE_MANUF_ZP_TECH = 40 /\
+  PP_NODE_CLASS_DMX_NODE = 0 /\
+  PP_NODE_DEVICE_PATHPORT = 0.
+Proof. repeat split; reflexivity. Qed.
+Print Assumptions c06_pathport_consts.
+
 Theorem c06_pathport_no_oob : forall buf n st,
   bytes_ok buf = true -> len buf = 1500 -> n <= len buf ->
   run buf (pathport_handle n st) <> Hazard Oob.
@@ -38,6 +77,52 @@ Proof.
   unfold PP_PACKET_SIZE. lia.
 Qed.
 Print Assumptions c06_pathport_stale_free.
+
+(* "never fails to return": the universe-spanning loop of HandleDmxData ends within fuel >= MAX_UNIVERSES + 2 -
+   universe (the universe number grows by one per turn and the loop stops above MAX_UNIVERSES), for any position,
+   data size < 2^32, offset < 512 and starting universe <= MAX_UNIVERSES + 1 *)
+Theorem c06_pathport_loop_returns : forall buf fuel pos ds off uni hs hits z,
+  bytes_ok buf = true -> ds < 4294967296 -> off < 512 -> uni <= PP_MAX_UNIVERSES + 1 ->
+  PP_MAX_UNIVERSES + 2 <= uni + N.of_nat fuel -> z <> Oob ->
+  run buf (pp_loop pos ds off uni hs hits fuel) <> Hazard z.
+Proof.
+  intros buf fuel pos ds off uni hs hits z Hb Hd Ho Hu Hf Hz E. apply Hz.
+  assert (B : bounded (pos + ds) (pp_loop pos ds off uni hs hits fuel))
+    by (apply pp_loop_bounded; auto; unfold DMX_UNIVERSE_SIZE; lia).
+  exact (nofail_run _ (bounded_nofail _ _ B) buf z Hb E).
+Qed.
+Print Assumptions c06_pathport_loop_returns.
+
+(* independent of the capacity and of what the socket layer reports: for a receive buffer of ANY size and ANY reported
+   length n < 2^31 the handler returns (its loops end within their fuel: universe-spanning loop: fuel = MAX_UNIVERSES + 2 - universe, the universe number grows by one per turn) and never divides by zero; and if
+   the buffer does hold n bytes it reads nothing at or beyond n *)
+Theorem c06_pathport_any_length : forall buf n st,
+  bytes_ok buf = true -> n <= 2147483647 ->
+  (forall z, z <> Oob -> run buf (pathport_handle n st) <> Hazard z) /\
+  (n <= len buf -> forall z, run buf (pathport_handle n st) <> Hazard z).
+Proof.
+  intros buf n st Hb Hn. pose proof (pathport_bounded_any n st Hn) as B. split.
+  - intros z Hz E. apply Hz. exact (nofail_run _ (bounded_nofail _ _ B) buf z Hb E).
+  - intros Hl z. apply (bounded_no_hazard n); assumption.
+Qed.
+Print Assumptions c06_pathport_any_length.
+
+(* history level: any sequence of datagrams, each followed in the receive buffer by arbitrary stale bytes, from any
+   initial state: no datagram ends in a hazard, and every output and the final state are the same whatever the
+   stale tails are *)
+Theorem c06_pathport_history : forall (h1 h2 : list (unit * list N * list N)) s,
+  Forall (fun x => let '(_, d, t) := x in bytes_ok d = true /\ bytes_ok t = true /\ len d <= 1500) h1 ->
+  Forall2 (fun x y => fst x = fst y) h1 h2 ->
+  (exists r, run_hist (fun (_ : unit) n st => pathport_handle n st) (fun st r => {| pp_dev := pp_dev st; pp_self := pp_self st; pp_ip := pp_ip st; pp_seq := pp_seq st; pp_hs := fst (fst r) |}) s h1 = Done r) /\
+  run_hist (fun (_ : unit) n st => pathport_handle n st) (fun st r => {| pp_dev := pp_dev st; pp_self := pp_self st; pp_ip := pp_ip st; pp_seq := pp_seq st; pp_hs := fst (fst r) |}) s h1 = run_hist (fun (_ : unit) n st => pathport_handle n st) (fun st r => {| pp_dev := pp_dev st; pp_self := pp_self st; pp_ip := pp_ip st; pp_seq := pp_seq st; pp_hs := fst (fst r) |}) s h2.
+Proof.
+  intros h1 h2 s Hok H2.
+  assert (Hb : forall i n st, n <= PP_PACKET_SIZE -> bounded n ((fun (_ : unit) n st => pathport_handle n st) i n st)) by (intros; apply pathport_bounded; assumption).
+  split.
+  - apply (hist_safe PP_PACKET_SIZE _ _ Hb). exact Hok.
+  - apply (hist_stale_free PP_PACKET_SIZE _ _ Hb); assumption.
+Qed.
+Print Assumptions c06_pathport_history.
 
 (* a 3-slot frame at offset 511 of universe 1 lands in the handlers of universes 1 and 2 *)
 Example ex_pathport_handled :
